@@ -51,6 +51,9 @@ def run_case(case):
     if known.active("three-same-signal-sources") and lang.same_type_fanin(prog):
         # open finding F-three-same: not judged, counted
         return {"discard": "excluded:F-three-same", "counters": {"excluded_by:F-three-same": 1}}
+    if case.get("optimize", True) and known.active("ir-fold-floor-div") and lang.ir_floor_div_shape(prog):
+        # open finding F-irdiv (C11): a signal-typed constant divided by a constant of the other sign is floored by the IR optimiser
+        return {"discard": "excluded:F-irdiv", "counters": {"excluded_by:F-irdiv": 1}}
     if known.active("shared-network-leak") and lang.shared_source_shape(prog):
         # open finding F-leak: the CSE-bait generator is not built on the exclusive/shared naming discipline, and an
         # alias of a shared name escapes it
